@@ -67,11 +67,11 @@ class Ctx:
                              'violated': r['violated'], 'wall_s': round(r['wall_s'], 1)})
         return r
 
-    def validate(self, module, cfg, files, procs=16, timeout=3000):
+    def validate(self, module, cfg, files, procs=16, timeout=3000, header_lines=1):
         """Trace validation of recorded events.  Returns list of (file, [id, clause])."""
         if not files:
             return []
-        results, tot = tlc.validate_traces(module, cfg, files, self.work, procs=procs, timeout=timeout)
+        results, tot = tlc.validate_traces(module, cfg, files, self.work, procs=procs, timeout=timeout, header_lines=header_lines)
         self.states += tot['states']
         self.transitions += tot['transitions']
         self.traces += tot['events']
